@@ -400,7 +400,7 @@ def check_front(case, res: CaseResult):
     spec = copy.deepcopy(spec)
     # timers need threads under the plain sync engine: the Python styles only forward `after`, so
     # keep it in the structure (fingerprint) but never let time pass in the traces
-    rec = Recorder(budget=10 ** 9)
+    rec = Recorder(budget=6000)   # an `always` cycle runs to the default bound of 1000 rounds: cut the case short
     r = Renderer(spec, rec)
     cfg, logic = r.config(), r.logic()
     ref = create_machine(cfg, logic=logic)
@@ -409,7 +409,7 @@ def check_front(case, res: CaseResult):
     tree = Tree(spec)
     res.nontrivial = max(n.depth for n in tree.nodes.values()) >= 2
     for style in ("functional", "class", "builder"):
-        rec2 = Recorder(budget=10 ** 9)
+        rec2 = Recorder(budget=6000)
         logic2 = Renderer(spec, rec2).logic()
         try:
             if style == "builder":
@@ -431,8 +431,15 @@ def check_front(case, res: CaseResult):
             res.violate(f"{style}|fingerprint-differs|{field}|{dup}", {"path": d[0], "json": d[1], "python": d[2]})
             continue
         if not has_after:
-            ta = _trace(create_machine(Renderer(spec, Recorder(budget=10 ** 9)).config(), logic=logic), history)
-            tb = _trace(m, history)
+            from ..recorder import StepBudgetExceeded
+
+            try:
+                rec.steps = rec2.steps = 0
+                ta = _trace(create_machine(Renderer(spec, Recorder(budget=10 ** 9)).config(), logic=logic), history)
+                tb = _trace(m, history)
+            except StepBudgetExceeded:
+                res.inconclusive = "budget"
+                return
             if ta != tb:
                 i = next((k for k, (x, y) in enumerate(zip(ta, tb)) if x != y), -1)
                 res.violate(f"{style}|trace-differs|{'repeated-names' if not case.get('unique', True) else 'unique-names'}", {"step": i, "json": ta[i] if i >= 0 else None, "python": tb[i] if i >= 0 else None})
@@ -441,6 +448,7 @@ def check_front(case, res: CaseResult):
             if style == "builder":
                 m1 = builder.build()
                 if not has_after:
+                    rec2.steps = 0
                     _trace(m1, history)
                 m2 = builder.build()
                 d2 = diff(ref_fp, machine_fp(m2))
@@ -609,7 +617,12 @@ def check_disc(case, res: CaseResult):
 def check_case(case) -> CaseResult:
     res = CaseResult()
     if case.get("kind") == "front":
-        check_front(case, res)
+        from ..recorder import StepBudgetExceeded
+
+        try:
+            check_front(case, res)
+        except StepBudgetExceeded:
+            res.inconclusive = "budget"
         res.sample = {"history": case["history"], "unique_names": case.get("unique")}
     else:
         check_disc(case, res)
